@@ -672,6 +672,17 @@ def call_semantics(ctx: Ctx):
     # one field of every kind a caller may pass (opaque and concrete): conversions that only touch some kinds must show
     fields = {"user_id": A.Sym("int", "FIELD:user_id"), "country": A.Sym("str", "FIELD:country"), "flag": True, "extra": None,
               "ratio": 2.0, "score": 0.5, "big": 10 ** 30, "label": A.Tmpl.lit("x"), "pair": A.AList([1, A.Tmpl.lit("a")], "tuple")}
+    # a field may have ANY name, also the name of a parameter that __call__ (or a method it forwards to) declares: a keyword-capable
+    # parameter takes such a field away from the experiment
+    try:
+        m0 = ctx.mod(EV)
+        c0 = m0.classes()["ExperimentEvaluator"]
+        for f_ in c0.body:
+            if isinstance(f_, ast.FunctionDef) and f_.name in ("__call__", "run_experiment", "evaluate"):
+                for a_ in f_.args.args[1:] + f_.args.kwonlyargs:
+                    fields.setdefault(a_.arg, A.Sym("str", f"FIELD:{a_.arg}"))
+    except KeyError:
+        pass
     try:
         runs = explore(ctx, [T0], then_call=fields)
     except Undecided as e:
